@@ -5,6 +5,7 @@
 package main
 
 import (
+	"bytes"
 	"encoding/binary"
 	"fmt"
 
@@ -182,4 +183,31 @@ func refWellFormedIdentity(b []byte) bool {
 		return false
 	}
 	return uint64(len(b)-n-m) == l
+}
+
+// guarded runs a call of a function under test (run returns the canonical
+// observation), checks that none of the []byte arguments was modified by the
+// call, runs it a second time on the same buffers and checks that the
+// observation is the same.
+func guarded(c *hx.Ctx, fn string, desc any, args [][]byte, run func() string) string {
+	cps := make([][]byte, len(args))
+	for i, a := range args {
+		cps[i] = append([]byte(nil), a...)
+	}
+	check := func() {
+		for i, a := range args {
+			if !bytes.Equal(a, cps[i]) {
+				c.Failf("argument-modified-"+fn, desc, "%s modified its []byte argument %d: %x -> %x", fn, i, cps[i], a)
+				copy(a, cps[i])
+			}
+		}
+	}
+	o := run()
+	check()
+	c.Eval()
+	if o2 := run(); o2 != o {
+		c.Failf("second-call-differs-"+fn, desc, "%s on the same input: first %s, then %s", fn, o, o2)
+	}
+	check()
+	return o
 }
